@@ -244,7 +244,7 @@ Tree cylinder_z(TreeFloat r, TreeFloat h, TreeVec3 base) {
 Tree cone_ang_z(TreeFloat angle, TreeFloat height, TreeVec3 base) {
     LIBFIVE_DEFINE_XYZ();
     return move(max(-z, cos(angle) * sqrt(square(x) + square(y))
-                      + sin(angle) * z - height),
+                      + sin(angle) * (z - height)),
                 base);
 }
 
